@@ -98,7 +98,13 @@ def run_impl(prog):
                 net = nx.DiGraph()
                 net.add_nodes_from(LABELS[n] for n in o[1])
                 net.add_edges_from((LABELS[u], LABELS[v]) for u, v in o[2])
-                d.add_from_networkx(net)
+                try:
+                    d.add_from_networkx(net)
+                finally:
+                    # the caller goes on using his own graph object (the next variant of the diagram): the diagram handed over
+                    # -- or, after a rejected call, the diagram held before -- must not follow
+                    net.remove_edges_from(list(net.edges))
+                    net.add_edge('__caller_only_1__', '__caller_only_2__')
             ok = True
         except DAGError:
             ok = False
@@ -108,7 +114,7 @@ def run_impl(prog):
         except Exception as e:   # noqa
             ok = None
             problems.append(('call-raises-other', '%r raised %s: %s' % (o, type(e).__name__, str(e)[:80])))
-        trace.append((ok, [IDX[n] for n in d.dag.nodes], [(IDX[u], IDX[v]) for u, v in d.dag.edges]))
+        trace.append((ok, [IDX.get(n, 99) for n in d.dag.nodes], [(IDX.get(u, 99), IDX.get(v, 99)) for u, v in d.dag.edges]))   # 99: a node the program never added
         if len(prog) > 1 and len(trace) == (len(prog) + 1) // 2 and len(prog) % 2 == 0:
             # an intermediate listing, asked for before the diagram is complete: the final listing is that of the FINAL diagram
             try:
@@ -138,20 +144,24 @@ def run_impl(prog):
                     plt.close('all')
                 except Exception:   # noqa
                     pass
-        res['sets'] = [[IDX[v] for v in s] for s in d.adjustment_sets]
-        res['minimal'] = [[IDX[v] for v in s] for s in d.minimal_adjustment_sets]
+        res['sets'] = [[IDX.get(v, 99) for v in s] for s in d.adjustment_sets]
+        res['minimal'] = [[IDX.get(v, 99) for v in s] for s in d.minimal_adjustment_sets]
     except Exception as e:   # noqa
         res['sets'] = None
         res['error'] = '%s: %s' % (type(e).__name__, str(e)[:100])
     nodes = list(d.dag.nodes)
-    res['nodes'] = [IDX[n] for n in nodes]
-    res['edges'] = [(IDX[u], IDX[v]) for u, v in d.dag.edges]
-    res['desc'] = [sorted(IDX[v] for v in descendants(d.dag, n)) for n in nodes]
-    res['anc'] = [sorted(IDX[v] for v in ancestors(d.dag, n)) for n in nodes]
+    res['nodes'] = [IDX.get(n, 99) for n in nodes]
+    res['edges'] = [(IDX.get(u, 99), IDX.get(v, 99)) for u, v in d.dag.edges]
+    res['desc'] = [sorted(IDX.get(v, 99) for v in descendants(d.dag, n)) for n in nodes]
+    res['anc'] = [sorted(IDX.get(v, 99) for v in ancestors(d.dag, n)) for n in nodes]
     ug = d.dag.to_undirected()
-    res['ureach'] = [sorted(IDX[v] for v in nodes if v != n and nx.has_path(ug, n, v)) for n in nodes]
+    res['ureach'] = [sorted(IDX.get(v, 99) for v in nodes if v != n and nx.has_path(ug, n, v)) for n in nodes]
     res['is_dag'] = bool(nx.is_directed_acyclic_graph(d.dag))
     return res
+
+
+def lab(v):
+    return str(LABELS[v]) if 0 <= v < len(LABELS) else '<a node the program never added>'
 
 
 def fs(sets):
@@ -159,7 +169,7 @@ def fs(sets):
 
 
 def show(sets):
-    return '[' + ', '.join('{' + ','.join(LABELS[v] for v in s) + '}' for s in sorted(map(sorted, sets), key=lambda s: (len(s), s))) + ']'
+    return '[' + ', '.join('{' + ','.join(lab(v) for v in s) + '}' for s in sorted(map(sorted, sets), key=lambda s: (len(s), s))) + ']'
 
 
 def show_prog(prog):
@@ -304,7 +314,7 @@ def compare(ctx, cases, impl, res, fails):
                     if got == fs(m_old) else '; the result differs from the model of the shipped loop as well: %s' % show(m_old))
             fail('calculate_adjustment_sets.loses-admissible-set',
                  'nodes %s arrows %s: omits the admissible set(s) %s; listed %s, specification %s%s'
-                 % ([LABELS[n] for n in r['nodes']], ['%s->%s' % (LABELS[u], LABELS[v]) for u, v in r['edges']],
+                 % ([lab(n) for n in r['nodes']], ['%s->%s' % (lab(u), lab(v)) for u, v in r['edges']],
                     show(spec - got), show(got), show(spec), diag))
         if got != fs(m_alg) and got != fs(m_old):
             fail('model.correspondence', 'adjustment_sets %s equal neither the model %s nor the model of the shipped loop %s' % (show(got), show(m_alg), show(m_old)))
